@@ -42,7 +42,7 @@ def scen_c17(r):
     sc = Scenario(g, info)
     if r.random() < 0.5:
         gen_api.gen_edits(g, info, r.randint(1, 4))
-    kind = r.choice(['req', 'req', 'detached_col', 'mixed', 'moved_col', 'composite_inline', 'detached_getrefs'])
+    kind = r.choice(['req', 'req', 'detached_col', 'mixed', 'moved_col', 'composite_inline', 'detached_getrefs', 'deleted_twin'])
     tabs = info['tables']
     t = r.choice(tabs)
     cols = info['columns'][t]
@@ -112,6 +112,21 @@ def scen_c17(r):
         sc.want(k, DBE, 'table1 of a reference whose columns no longer share a table raises the DBML error, also after it answered before')
         k = g.emit(Op(81, rf))
         sc.want(k, DBE, 'DBML of a reference whose columns no longer share a table raises the DBML error, also after it rendered before')
+    elif kind == 'deleted_twin':
+        # a table is removed from the database through an equal but distinct object: it is the STORED table that
+        # is detached, and every question that needs the database must then be refused for it
+        nm = 'twin_%d' % r.randint(0, 9)
+        c1 = g.emit(Op(12, 'id', vs('int'), False, False, True, False, NONE, NONE, None, []))
+        t1 = g.emit(Op(14, nm, 'public', None, [c1], [], NONE, None, None, False, []))
+        g.emit(Op(30, 0, info['db'], t1))
+        c2 = g.emit(Op(12, 'id', vs('int'), False, False, True, False, NONE, NONE, None, []))
+        t2 = g.emit(Op(14, nm, 'public', None, [c2], [], NONE, None, None, False, []))
+        g.emit(Op(40, r.choice([0, 1]), info['db'], t2))
+        k = g.emit(Op(74, t1))
+        sc.want(k, UDB, 'get_refs of a table that was removed (through an equal object) raises unknown-database')
+        k = g.emit(Op(75, c1))
+        sc.want(k, UDB, 'get_refs of a column of a removed table raises unknown-database')
+        g.emit(Op(74, t2)); g.emit(Op(80, t1)); g.emit(Op(82))
     elif kind == 'composite_inline':
         if len(cols) < 2:
             return None
